@@ -30,7 +30,7 @@ for mp in sorted(glob.glob("/verif/seeded/*/meta.json")):
             verdicts[p] = {"rc": pr.returncode, "reports": keys[:6]}
     finally:
         sh("git -C /repo checkout -- . && git -C /repo clean -fdq")
-    if m["seed"][-1] in "ef" and "first_pass" not in m:
+    if m["seed"][-1] in "efgh" and "first_pass" not in m:
         # round 3 was held out: remember what the frozen checks (before any strengthening) said
         m["first_pass"] = {"detected_by": m.get("detected_by", []), "verif_commit": m.get("verif_commit")}
     m["checks"] = {p: v for p, v in verdicts.items() if v["rc"] != 0}
